@@ -1875,3 +1875,26 @@ def gen_parser_fields():
     out.append("")
     out.append("end XV.Gen.ParserFields")
     return "\n".join(out) + "\n"
+
+
+# ------------------------------------------------------------------ C19: settings copied by XMLScanner::setParseSettings
+@translate.register("ScannerCopy")
+def gen_scanner_copy():
+    """useScanner() / the SAX2 scanner-name property create a new scanner and copy the user's settings with
+    XMLScanner::setParseSettings.  Emitted: the setters that function calls (in order) and every public setter-like
+    method XMLScanner.hpp declares."""
+    relc, relh = "internal/XMLScanner.cpp", "internal/XMLScanner.hpp"
+    c = strip_c_comments(src(relc)); h = strip_c_comments(src(relh))
+    m = re.search(r"void\s+XMLScanner::setParseSettings\s*\(\s*XMLScanner\s*\*\s*const\s+(\w+)\s*\)\s*\{(.*?)\n\}", c, flags=re.S)
+    if not m:
+        raise TranslateError("XMLScanner::setParseSettings not found in " + relc)
+    ref = m.group(1)
+    copied = re.findall(r"^\s*(\w+)\s*\(\s*%s\s*->" % re.escape(ref), m.group(2), flags=re.M)
+    if len(copied) < 5:
+        raise TranslateError("setParseSettings: copy list not recognised")
+    setters = sorted(set(re.findall(r"\bvoid\s+(set[A-Z]\w*|cacheGrammarFromParse|useCachedGrammarInParse)\s*\(", h)))
+    if "setDisableDefaultEntityResolution" not in setters or len(setters) < 20:
+        raise TranslateError("XMLScanner.hpp: setter declarations not recognised")
+    def ll(name, xs):
+        return "def %s : List String := [\n%s]\n" % (name, ",\n".join("  " + ", ".join('"%s"' % x for x in xs[k:k + 4]) for k in range(0, len(xs), 4)))
+    return HEADER + "namespace XV.Gen.ScannerCopy\n\n" + ll("copied", copied) + "\n" + ll("setters", setters) + "\nend XV.Gen.ScannerCopy\n"
